@@ -4,13 +4,17 @@ import re
 IDENT = re.compile(r"[A-Za-z_0-9$][A-Za-z_0-9$.]*")
 
 
+REPEAT = re.compile(r"(?<![a-z0-9_$.])\.?repeat\b")
+
+
 def fold_repeat_bodies(text):
     """Join the lines of every '.repeat ... { ... }' block, so that the body counts as operand of the size-less directive."""
     out = []
     i = 0
     low = text.lower()
     while True:
-        j = low.find(".repeat", i)
+        mm = REPEAT.search(low, i)
+        j = mm.start() if mm else -1
         if j < 0:
             out.append(text[i:])
             break
@@ -54,7 +58,7 @@ def definitional_cycle(texts):
     event = re.compile(
         r"(?P<assign>(?P<an>\.|[A-Za-z_$][A-Za-z_0-9$.]*)\s*==?(?!=)(?P<ae>[^\n]*))"
         r"|(?P<label>(?P<ln>[A-Za-z_0-9$.]+)\s*::?)"
-        r"|(?P<dir>(?P<dn>\.blkb|\.blkw|\.align|\.repeat|\.link|\.ascii|\.asciz|\.rad50|\.even|\.odd|\.include|insert_file)\b(?P<de>[^\n]*))",
+        r"|(?P<dir>(?<![A-Za-z0-9_$.])(?P<dn>\.?(?:blkb|blkw|align|repeat|link|ascii|asciz|rad50|even|odd|include)|insert_file)\b(?P<de>[^\n]*))",
         re.I)
     for text in texts:
         # drop comments and radix / complement prefixes (so that '^Cx1' mentions x1); fold a '.repeat' body into its operand
@@ -65,7 +69,7 @@ def definitional_cycle(texts):
         text = re.sub(r"\n(?:[ \t]*\n)*(?=[ \t]*[-+*/%&|!^_(<>,])", " ", text)
         text = re.sub(r"(?<=[-+*/%&|!^_,(<])[ \t]*\n(?:[ \t]*\n)*", " ", text)
         # a directive whose operand starts on the next line ('.ascii' + newline + operands)
-        text = re.sub(r"(?i)(\.blkb|\.blkw|\.align|\.repeat|\.link|\.ascii|\.asciz|\.rad50|\.include|insert_file|=)[ \t]*\n(?:[ \t]*\n)*", r"\1 ", text)
+        text = re.sub(r"(?i)((?<![A-Za-z0-9_$.])\.?(?:blkb|blkw|align|repeat|link|ascii|asciz|rad50|include)|insert_file|=)[ \t]*\n(?:[ \t]*\n)*", r"\1 ", text)
         text = re.sub(r"\^[CcXxOoBbDdRr]", " ", text)
         pos = 0
         while True:
@@ -91,7 +95,7 @@ def definitional_cycle(texts):
                 graph.setdefault(m.group("ln").lower(), set()).update(sizeless)
                 pos = m.end()
             else:
-                if m.group("dn").lower() == ".link":
+                if m.group("dn").lower().lstrip(".") == "link":
                     base_set = True
                 sizeless |= {i.lower() for i in IDENT.findall(m.group("de"))}
                 pos = m.start("de")
